@@ -1,17 +1,25 @@
 #!/bin/sh
-# usage: confirm_seed.sh <dir with patchN.diff demoN.rs> <N> <label>
+# usage: confirm_seed.sh <dir with patchN.diff demoN.rs|demoN.sh> <N> <label> [extra cargo args for the demo]
 # Confirms in the scratch worktree /tmp/wt/own: patch applies, full suite passes with it,
 # demo fails with it and passes without it.
-d=$(readlink -f "$1"); n=$2; label=$3
+d=$(readlink -f "$1"); n=$2; label=$3; extra=$4
 wt=/tmp/wt/own
 export CARGO_NET_OFFLINE=true CARGO_TARGET_DIR=/tmp/wt/own.target
 cd $wt || exit 2
-git checkout -q -- . ; rm -f tests/zz_demo.rs
+git checkout -q -- . ; rm -f tests/zz_demo*.rs
 git apply "$d/patch$n.diff" || { echo "$label: PATCH DOES NOT APPLY"; exit 1; }
 suite=$(cargo test --workspace --no-fail-fast --offline 2>&1 | grep -E "^test result" | awk '{ok+=$4; fail+=$6} END{print ok" passed "fail" failed"}')
-cp "$d/demo$n.rs" tests/zz_demo.rs
-with=$(cargo test --offline --test zz_demo 2>&1 | grep -E "^test result|error(\[|:)" | head -2 | tr '\n' ' ')
-git checkout -q -- src Cargo.toml 2>/dev/null
-without=$(cargo test --offline --test zz_demo 2>&1 | grep -E "^test result|error(\[|:)" | head -2 | tr '\n' ' ')
-rm -f tests/zz_demo.rs; git checkout -q -- .
+rundemo() {
+  if [ -f "$d/demo$n.sh" ]; then
+    if sh "$d/demo$n.sh" $wt > /tmp/wt/confirm/demo_$label.log 2>&1; then echo "test result: ok. (demo script exit 0)"; else echo "test result: FAILED. (demo script exit $?)"; fi
+  else
+    cp "$d/demo$n.rs" tests/zz_demo.rs
+    cargo test --offline $extra --test zz_demo 2>&1 | grep -E "^test result|error(\[|:)" | head -2 | tr '\n' ' '
+    rm -f tests/zz_demo.rs
+  fi
+}
+with=$(rundemo)
+git checkout -q -- . ; rm -f tests/zz_demo*.rs
+without=$(rundemo)
+rm -f tests/zz_demo*.rs; git checkout -q -- .
 echo "$label: suite-with-patch: $suite | demo WITH patch: $with | demo WITHOUT patch: $without"
